@@ -96,6 +96,15 @@ def check_program(ctx, prog, where, rec):
                 continue
             rec.violation(f"unlabelled:{ctx.repr}:{'list' if is_list else 'node'}", {"where": where, "node": core.short(model.canon(n), 200), "grammar": ctx.case["desc"]["name"]})
             continue
+        if len(nodes) <= 300:
+            # whatever the index is keyed by (grammar classes, builtins, the list type - conventions the comparison below
+            # leaves alone): a program node or a list it NAMES must be the node itself or lie beneath it (s7-C11: a one-element
+            # list's index aliased with its element's, so that the element listed its own container)
+            rec.count("type_index_membership_checked")
+            beneath = {id(x) for x in refmodel.walk_nodes(model, n)} | {id(n)}
+            foreign = sorted({type(o).__name__ for v in n.gengy_types_this_way.values() for o in v if (isinstance(o, list) or type(o) in model.registered) and id(o) not in beneath})
+            if foreign:
+                rec.violation(f"labels:{ctx.repr}:type-index-names-something-not-beneath-the-node:{'list' if is_list else 'node'}", {"where": where, "node": core.short(model.canon(n), 200), "named": foreign, "grammar": ctx.case["desc"]["name"]})
         if expansion:
             # expansion depthing: the documented part (one per rule expansion along the class hierarchy, a field-less node
             # counts 1) is exact, the rest (built-in leaves, list levels, wrapped positions) is bracketed by its lowest and
